@@ -278,3 +278,64 @@ func VerifH_C10_O8_join_exec_left() { v10fExec(1) }
 // verif:bounds as VerifH_C10_O8_join_exec_inner
 // verif:outside as VerifH_C10_O8_join_exec_inner
 func VerifH_C10_O8_join_exec_anti() { v10fExec(2) }
+
+// v10fSchedKeys: concrete key patterns of the schedule variant, {left, right},
+// each side in ascending order with null last; 0 stands for null(int64)
+var v10fSchedKeys = [][2][2]int64{
+	{{1, 2}, {2, 2}}, // the second left record joins both right records
+	{{3, 0}, {3, 0}}, // a tie and a null key on both sides
+}
+
+// (left, right) declared directions of the schedule variant: no sort, two
+// sorts, one sort on either side, a descending join
+var v10fSchedDirs = [][2]order.Direction{
+	{order.Up, order.Up},
+	{order.Unknown, order.Unknown},
+	{order.Up, order.Unknown},
+	{order.Unknown, order.Down},
+	{order.Down, order.Down},
+}
+
+func v10fExecSched(sched int) {
+	verif.Schedules(sched)
+	style := verif.Choose("style", 3) // inner, left, anti
+	ndirs := len(v10fSchedDirs)
+	if sched > 1 {
+		ndirs = 4
+	}
+	dirs := v10fSchedDirs[verif.Choose("dirs", ndirs)]
+	split := 3 * verif.Choose("split", 2) // every input in one batch, or one batch per record
+	pat := v10fSchedKeys[verif.Choose("keys", len(v10fSchedKeys))]
+	// the join's order (as New decides it)
+	joinDown := dirs[0] == order.Down || dirs[0] == order.Unknown && dirs[1] == order.Down
+	var keys [2][2]v10fKey
+	for side := 0; side < 2; side++ {
+		// a declared input is delivered in that order (down: reversed, nulls
+		// first); an undeclared one against the join's order, so the sort
+		// New inserts has to move both records
+		down := dirs[side] == order.Down || dirs[side] == order.Unknown && !joinDown
+		for i := 0; i < 2; i++ {
+			k := pat[side][i]
+			if down {
+				k = pat[side][1-i]
+			}
+			if k == 0 {
+				keys[side][i] = v10fKey{null: true, x: 2, k: 1}
+			} else {
+				keys[side][i] = v10fKey{x: byte(2 * k), k: k}
+			}
+		}
+	}
+	v10fJoin(style, dirs, split, keys[0], keys[1])
+}
+
+// verif:desc C10-O8s the join operator, styles INNER, LEFT and ANTI, same run and same assertions as VerifH_C10_O8_join_exec_inner/_left/_anti (the output multiset is the nested-loop join under the language's ==, no error, EOS), under EVERY goroutine schedule with at most 1 preemption (thorough tier: 2) at the channel operations, selects, closes, lock/once/WaitGroup operations and goroutine starts of the real join.Op.Pull/puller.run/Read code and of the sort operators join.New inserts (sort.Op.Pull/run/sendResult), with a bounded free choice of which runnable goroutine continues: up to 5 goroutines (consumer, two join pullers, two sorts); the result does not depend on how they interleave
+// verif:bounds left 2 records, right 2 records, concrete keys: left 1,2 / right 2,2, or left 3,null / right 3,null (Choose); declared directions (left,right) in {(up,up) no sort, (?,?) two sorts, (up,?), (?,down), (down,down)} (thorough tier: the first four), a declared input delivered in that order, an undeclared one in the opposite of the join's order; both inputs in one batch or both in one batch per record; preemption bound 1 (thorough: 2)
+// verif:outside as VerifH_C10_O8_join_exec_inner except that schedules are explored up to the bound; symbolic keys and the other direction/split combinations (VerifH_C10_O8_join_exec_*); field loads/stores are not preemption points (data-race freedom between sync points is assumed)
+func VerifH_C10_O8s_join_schedules() {
+	if verif.Thorough() {
+		v10fExecSched(2)
+	} else {
+		v10fExecSched(1)
+	}
+}
